@@ -39,6 +39,8 @@ def shards(tier, seed):
         nn = sorted(set(nn) | set(range(1, 65)))
     for fs, S2, iscsd in itertools.product((1.0, 1000.0), (0.3, 40.0), (True, False)):
         out.append({"part": "grid", "fs": fs, "S2": S2, "iscsd": iscsd, "g2": g2, "nn": nn})
+    for iscsd in (True, False):
+        out.append({"part": "grid", "fs": 1.0, "S2": 0.3, "iscsd": iscsd, "g2": list(G2)[::2], "nn": [1, 2, 7], "afterplot": True})
     for sch, mode, backend in itertools.product(("ltf", "vectorized_ltf", "lpsd", "new_ltf"), ("auto", "cross"), ("numba", "numpy")):
         out.append({"part": "ana", "sched": sch, "mode": mode, "backend": backend, "seed": seed})
     return out
@@ -82,11 +84,23 @@ def _grid(shard):
         pts = [tuple(shard["only"])]
     r = build_result(fs, S2, iscsd, pts)
     out = {"evals": 0, "nontrivial": 0, "failures": [], "samples": [], "extra": {}}
+    if shard.get("afterplot"):
+        # the same statements for a result that has been drawn with 3-sigma error bands first (drawing reads the deviations)
+        import matplotlib
+        matplotlib.use("Agg", force=False)
+        import matplotlib.pyplot as plt
+        for which in ((None, "coh", "csd", "cf") if iscsd else (None, "psd", "asd")):
+            try:
+                fig_ax = r.plot(which, errors=True, sigma=3)
+                plt.close(fig_ax[0])
+            except Exception:  # noqa: BLE001  (whether this plot is possible is not the subject)
+                plt.close("all")
+        out["extra"]["results_plotted_first"] = 1
     n = np.array([p[1] for p in pts], dtype=float)
     seen = set()
 
     def add(tag, j, msg):
-        key = f"grid/{'csd' if iscsd else 'auto'}/{tag}"
+        key = ("afterplot/" if shard.get("afterplot") else "") + f"grid/{'csd' if iscsd else 'auto'}/{tag}"
         if key not in seen:
             seen.add(key)
             out["failures"].append(fw.fail(key, f"{key}: point (g2,n,XX,YY,arg)={pts[j]} fs={fs} S2={S2}: {msg}",
